@@ -217,7 +217,11 @@ func runC16(r *vk.Run) {
 				d   time.Duration
 			}
 			valid := []sv{{"1", time.Second}, {"15", 15 * time.Second}, {"0.5", 500 * time.Millisecond}, {"1.5", 1500 * time.Millisecond}, {"60", time.Minute}, {"0.001", time.Millisecond},
-				{"15s", 15 * time.Second}, {"1m", time.Minute}, {"1h30m", 90 * time.Minute}, {"100ms", 100 * time.Millisecond}, {"1d", 24 * time.Hour}, {"1w", 7 * 24 * time.Hour}, {"2h", 2 * time.Hour}, {"1m30s", 90 * time.Second}, {"3600", time.Hour}}
+				{"15s", 15 * time.Second}, {"1m", time.Minute}, {"1h30m", 90 * time.Minute}, {"100ms", 100 * time.Millisecond}, {"1d", 24 * time.Hour}, {"1w", 7 * 24 * time.Hour}, {"2h", 2 * time.Hour}, {"1m30s", 90 * time.Second}, {"3600", time.Hour},
+				// plain seconds below a millisecond / with sub-millisecond digits: honoured as written
+				// (compared within 1 ns: the product with 1e9 need not be exact)
+				{"0.0004", 400 * time.Microsecond}, {"0.00025", 250 * time.Microsecond}, {"2.0004", 2000400 * time.Microsecond}, {"0.0125", 12500 * time.Microsecond},
+				{"1.2345678", 1234567800 * time.Nanosecond}, {"0.000001", time.Microsecond}, {"1.001", 1001 * time.Millisecond}}
 			v := vk.Pick(rng, valid)
 			stepS = sp(v.txt)
 			wantStep = v.d
@@ -235,7 +239,7 @@ func runC16(r *vk.Run) {
 			c.Fail("", fmt.Sprintf("valid step %v rejected: %v", strp(stepS), err), det)
 			return
 		}
-		if gotStep != wantStep {
+		if d := gotStep - wantStep; d < -1 || d > 1 || (!strings.Contains(strp(stepS), ".") && d != 0) {
 			c.Fail("", fmt.Sprintf("step resolved to %s, expected %s (step=%v, range %s)", gotStep, wantStep, strp(stepS), wantEnd.Sub(wantStart)), det)
 			return
 		}
